@@ -1021,6 +1021,7 @@ structure CInv (objs : List Obj) (roots : List Nat) : Prop where
   coh : ∀ (p : Nat) (po : Obj) (k : Name) (c : Nat), objs[p]? = some po → (k, c) ∈ po.contents →
     ∃ co : Obj, objs[c]? = some co ∧ co.parent = some p ∧ co.name = k
   listed : ∀ (i : Nat) (o : Obj), objs[i]? = some o → Listed objs roots i o
+  rootsOk : ∀ r : Nat, r ∈ roots → ∃ o : Obj, objs[r]? = some o ∧ o.parent = none
 
 /-- The invariant of C02. -/
 structure Inv (s : State) : Prop where
@@ -1045,11 +1046,12 @@ theorem modify_name_get {objs : List Obj} {prev : Nat} {nm' : Name} {i : Nat} {o
 
 theorem modify_name_get' {objs : List Obj} (prev : Nat) (nm' : Name) {i : Nat} {o : Obj}
     (h : objs[i]? = some o) :
-    ∃ o', (objs.modify prev (fun p => { p with name := nm' }))[i]? = some o' ∧ o'.contents = o.contents := by
+    ∃ o', (objs.modify prev (fun p => { p with name := nm' }))[i]? = some o' ∧ o'.contents = o.contents ∧
+      o'.parent = o.parent := by
   by_cases hi : i = prev
   · subst hi
-    exact ⟨{ o with name := nm' }, by rw [getElem?_modify_eq, h]; rfl, rfl⟩
-  · exact ⟨o, by rw [getElem?_modify_ne _ hi]; exact h, rfl⟩
+    exact ⟨{ o with name := nm' }, by rw [getElem?_modify_eq, h]; rfl, rfl, rfl⟩
+  · exact ⟨o, by rw [getElem?_modify_ne _ hi]; exact h, rfl, rfl⟩
 
 /-- renaming a superseded object that nobody lists keeps the tree coherent -/
 theorem CInv_rename {objs : List Obj} {roots : List Nat} {prev : Nat} {nm' : Name}
@@ -1060,9 +1062,10 @@ theorem CInv_rename {objs : List Obj} {roots : List Nat} {prev : Nat} {nm' : Nam
     (hnoentry : ∀ (p : Nat) (po : Obj) (k : Name), objs[p]? = some po → (k, prev) ∉ po.contents)
     (hlisted : ∀ (i : Nat) (o : Obj), i ≠ prev → objs[i]? = some o → Listed objs roots i o)
     (hprevpar : ∀ po : Obj, objs[prev]? = some po → (po.parent = none → prev ∈ roots) ∧
-      (∀ p, po.parent = some p → ∃ ppo : Obj, objs[p]? = some ppo)) :
+      (∀ p, po.parent = some p → ∃ ppo : Obj, objs[p]? = some ppo))
+    (hroots : ∀ r : Nat, r ∈ roots → ∃ o : Obj, objs[r]? = some o ∧ o.parent = none) :
     CInv (objs.modify prev (fun p => { p with name := nm' })) roots := by
-  refine ⟨?_, ?_, ?_⟩
+  refine ⟨?_, ?_, ?_, ?_⟩
   · intro p po' hpo'
     obtain ⟨po, hpo, _, hc, _, _⟩ := modify_name_get hpo'
     rw [hc]; exact cuniq p po hpo
@@ -1079,14 +1082,18 @@ theorem CInv_rename {objs : List Obj} {roots : List Nat} {prev : Nat} {nm' : Nam
       obtain ⟨h1, h2⟩ := hprevpar o ho
       refine ⟨fun hn => h1 (hpar ▸ hn), fun p hp => ?_⟩
       obtain ⟨ppo, hppo⟩ := h2 p (hpar ▸ hp)
-      obtain ⟨ppo', hppo', _⟩ := modify_name_get' i nm' hppo
+      obtain ⟨ppo', hppo', _, _⟩ := modify_name_get' i nm' hppo
       exact ⟨ppo', hppo', Or.inr (by rw [heq rfl]; exact hsup)⟩
     · have := hne hi; subst this
       obtain ⟨h1, h2⟩ := hlisted i o' hi ho
       refine ⟨h1, fun p hp => ?_⟩
       obtain ⟨po, hpo, hd⟩ := h2 p hp
-      obtain ⟨po', hpo', hc⟩ := modify_name_get' prev nm' hpo
+      obtain ⟨po', hpo', hc, _⟩ := modify_name_get' prev nm' hpo
       exact ⟨po', hpo', by rw [hc]; exact hd⟩
+  · intro r hr
+    obtain ⟨o, ho, hp⟩ := hroots r hr
+    obtain ⟨o', ho', _, hp'⟩ := modify_name_get' prev nm' ho
+    exact ⟨o', ho', hp'.trans hp⟩
 
 /-! ### registration -/
 
@@ -1308,6 +1315,22 @@ theorem addObject_core {s s1 s' : State} {new : Obj} {name : Name} {parent : Opt
             · rw [dset_get_other _ _ _ _ hname]; exact b2
           · exact b2
         · right; rw [a2]; exact b2
+  have roots1 : ∀ r : Nat, r ∈ s1.roots → ∃ o : Obj, s1.objs[r]? = some o ∧ o.parent = none := by
+    intro r hr
+    have hold : r ∈ s.roots → ∃ o : Obj, s1.objs[r]? = some o ∧ o.parent = none := by
+      intro hr'
+      obtain ⟨o, ho, hp⟩ := hI.tree.rootsOk r hr'
+      obtain ⟨o', o1, c1, c2, _, c4, _⟩ := hget r (List.getElem?_eq_some_iff.1 ho).1
+      rw [ho] at c1; injection c1 with e; subst e
+      exact ⟨o1, c2, c4.trans hp⟩
+    cases hpc : parent with
+    | none =>
+      rw [hroots.1 hpc] at hr
+      rcases List.mem_append.1 hr with a | a
+      · exact hold a
+      · simp only [List.mem_singleton] at a; subst a
+        exact ⟨new, hgetn, hnp.trans hpc⟩
+    | some p => rw [(hroots.2 p hpc).1] at hr; exact hold hr
   -- assemble
   have hlen' : s'.objs.length = s.objs.length + 1 := by
     rcases hcase with ⟨_, e⟩ | ⟨_, _, _, _, e⟩
@@ -1322,11 +1345,11 @@ theorem addObject_core {s s1 s' : State} {new : Obj} {name : Name} {parent : Opt
   · rcases hcase with ⟨hdg, e⟩ | ⟨prev, nm', hprev, hsup, e⟩
     · rw [e, hroots']
       have hno := dget_none_iff.1 hdg
-      exact ⟨cuniq1, coh1, fun i o1 ho1 => listed1 i o1 ho1 (fun v hv => absurd hv (hno v))⟩
+      exact ⟨cuniq1, coh1, fun i o1 ho1 => listed1 i o1 ho1 (fun v hv => absurd hv (hno v)), roots1⟩
     · rw [e, hroots']
       have hprevR : Reg s prev := ⟨fn, hall ▸ hprev⟩
       have hprevlt : prev < s.objs.length := Reg.lt hI.reg hprevR
-      refine CInv_rename hsup cuniq1 coh1 ?_ ?_ ?_
+      refine CInv_rename hsup cuniq1 coh1 ?_ ?_ ?_ roots1
       · -- nobody lists prev
         intro q qo k hqo hent
         obtain ⟨co, b1, b2, b3⟩ := coh1 q qo k prev hqo hent
@@ -1454,19 +1477,21 @@ theorem delAll_below {s s1 : State} {top : Nat} (hI : PInv s) (h : delAll s (obj
     exact b (uniq_val hI.uniq hkx a ▸ hxb)
 
 /-- the last loop of `reparent`: re-register the moved subtree -/
-theorem reparent_finish {s s5 s' : State} {obj : Nat} {B : Path} {ran : Prop}
-    (hI : Inv s) (hP5 : PInv s5)
+theorem reparent_finish {s s5 s' : State} {obj : Nat} {A B : Path} {ran : Prop}
+    (hI : Inv s) (hA : (A, obj) ∈ s.all) (hP5 : PInv s5)
     (hreg5 : ∀ i, Reg s5 i ↔ ((Reg s i ∧ ¬Below s.objs obj i) ∨ (i = obj ∧ ran)))
     (hparA : ∀ i : Nat, i ≠ obj → (s5.objs[i]?).map (·.parent) = (s.objs[i]?).map (·.parent))
     (hkeyA : ∀ i : Nat, Below s.objs obj i → i ≠ obj → (s5.objs[i]?).map okey = (s.objs[i]?).map okey)
     (hobj : path s5 obj = some B)
     (hran : ran → (B, obj) ∈ s5.all) (hnran : ¬ran → ∀ v, (B, v) ∉ s5.all)
     (hobjpar : ∀ o q, s5.objs[obj]? = some o → o.parent = some q → Reg s5 q)
-    (hobjlt : obj < s.objs.length)
     (h : addAll s5 (objectsBelow s obj) = .ok s') :
-    PInv s' ∧ (∀ i, i < s.objs.length → Reg s' i) ∧ s'.objs = s5.objs ∧ s'.roots = s5.roots := by
+    PInv s' ∧ (∀ i, i < s.objs.length → Reg s' i) ∧ s'.objs = s5.objs ∧ s'.roots = s5.roots ∧
+    (∀ k v, (k, v) ∈ s5.all → (k, v) ∈ s'.all) ∧
+    (∀ k v, (k, v) ∈ s'.all → ((k, v) ∈ s5.all ∨ (Reg s v ∧ Below s.objs obj v))) ∧
+    (∀ x kx, (kx, x) ∈ s.all → Below s.objs obj x →
+      ∃ rest, kx = A ++ rest ∧ path s' x = some (B ++ rest)) := by
   have hbelow : ∀ x, x ∈ objectsBelow s obj ↔ (Reg s x ∧ Below s.objs obj x) := fun x => mem_objectsBelow hI.reg
-  obtain ⟨A, hA⟩ := hI.full obj hobjlt
   have hAP := hI.reg.hasPath hA
   have hBP : HasPath s5.objs obj B := path_sound hobj
   have hre : ∀ x kx, (kx, x) ∈ s.all → Below s.objs obj x →
@@ -1535,7 +1560,24 @@ theorem reparent_finish {s s5 s' : State} {obj : Nat} {B : Path} {ran : Prop}
         · exact ⟨k, (h6m k i).2 (Or.inl ⟨hk, fun x hx hxk => hex ⟨x, hx, hxk⟩⟩)⟩
       · obtain ⟨k, hk⟩ := h6d i hb
         exact ⟨k, (h6m k i).2 (Or.inr ⟨hb, hk⟩)⟩
-  refine ⟨⟨h6u, ?_, ?_⟩, ?_, h6o, h6r⟩
+  refine ⟨⟨h6u, ?_, ?_⟩, ?_, h6o, h6r, ?_, ?_, ?_⟩
+  rotate_left 3
+  · intro k v hk
+    by_cases hex : ∃ x, x ∈ objectsBelow s obj ∧ path s5 x = some k
+    · obtain ⟨x, hx, hxk⟩ := hex
+      have := hcoll k v x hk hx hxk
+      subst this
+      exact (h6m k v).2 (Or.inr ⟨hx, hxk⟩)
+    · exact (h6m k v).2 (Or.inl ⟨hk, fun x hx hxk => hex ⟨x, hx, hxk⟩⟩)
+  · intro k v hk
+    rcases (h6m k v).1 hk with ⟨a, _⟩ | ⟨a, _⟩
+    · exact Or.inl a
+    · exact Or.inr ((hbelow v).1 a)
+  · intro x kx hx hb
+    obtain ⟨rest, e, hP⟩ := hre x kx hx hb
+    obtain ⟨k, hk⟩ := h6d x ((hbelow x).2 ⟨⟨kx, hx⟩, hb⟩)
+    have := (path_sound hk).func hP
+    exact ⟨rest, e, by rw [hpath', hk, this]⟩
   · intro k v hkv
     rw [hpath']
     rcases (h6m k v).1 hkv with ⟨a, _⟩ | ⟨_, a⟩
@@ -1563,30 +1605,67 @@ theorem reparent_finish {s s5 s' : State} {obj : Nat} {B : Path} {ran : Prop}
     · exact (hregS i).2 (Or.inr ((hbelow i).2 ⟨hiR, hb⟩))
     · exact (hregS i).2 (Or.inl ((hreg5 i).2 (Or.inl ⟨hiR, hb⟩)))
 
+/-- the objects after the three in-place edits of `reparent` -/
+def moveObjs (objs : List Obj) (obj op np : Nat) (newName : Name) (oc : List (Name × Nat))
+    (oldName : Name) (newPath : Path) : List Obj :=
+  ((objs.modify obj (fun x => { x with parent := some np, name := newName })).modify op
+      (fun x => { x with contents := oc, aliases := dset x.aliases oldName newPath })).modify np
+      (fun x => { x with contents := dset x.contents newName obj })
+
 /-- the three in-place edits of `reparent`, field by field -/
 theorem modify3_get (l : List Obj) (obj op np : Nat) (newName : Name) (oc : List (Name × Nat))
-    (al : Obj → List (Name × Path)) (i : Nat) :
+    (oldName : Name) (newPath : Path) (i : Nat) :
     ∃ F : Obj → Obj,
-      (((l.modify obj (fun x => { x with parent := some np, name := newName })).modify op
-          (fun x => { x with contents := oc, aliases := al x })).modify np
-          (fun x => { x with contents := dset x.contents newName obj }))[i]? = (l[i]?).map F ∧
+      (moveObjs l obj op np newName oc oldName newPath)[i]? = (l[i]?).map F ∧
       ∀ os, (F os).name = (if i = obj then newName else os.name) ∧
         (F os).parent = (if i = obj then some np else os.parent) ∧
         (F os).contents = (if i = np then dset (if i = op then oc else os.contents) newName obj
-                            else (if i = op then oc else os.contents)) := by
+                            else (if i = op then oc else os.contents)) ∧
+        (F os).cls = os.cls ∧
+        (F os).aliases = (if i = op then dset os.aliases oldName newPath else os.aliases) := by
   refine ⟨fun a =>
     (fun a : Obj => if np = i then { a with contents := dset a.contents newName obj } else a)
-      ((fun a : Obj => if op = i then { a with contents := oc, aliases := al a } else a)
+      ((fun a : Obj => if op = i then { a with contents := oc, aliases := dset a.aliases oldName newPath } else a)
         ((fun a : Obj => if obj = i then { a with parent := some np, name := newName } else a) a)), ?_, ?_⟩
-  · simp only [List.getElem?_modify]
+  · simp only [moveObjs, List.getElem?_modify]
     cases l[i]? <;> rfl
   · intro os
     by_cases h1 : obj = i <;> by_cases h2 : op = i <;> by_cases h3 : np = i <;>
       simp [h1, h2, h3, eq_comm]
 
-/-- `Documentable.reparent` preserves the invariant. -/
-theorem reparent_inv {s s' : State} {obj newParent : Nat} {newName : Name} (hI : Inv s)
-    (h : reparent s obj newParent newName = .ok s') : Inv s' := by
+/-- What a successful `reparent s obj newParent newName = .ok s'` did, for the witnesses
+`o` (the moved object as it was), `op`/`opo` (its old parent), `oc` (the old parent's contents
+without the old name), `A` (the old qualified name), `pnp` (the qualified name of the new parent). -/
+structure ReparentFacts (s s' : State) (obj newParent : Nat) (newName : Name)
+    (o : Obj) (op : Nat) (opo : Obj) (oc : List (Name × Nat)) (A pnp : Path) : Prop where
+  ho : s.objs[obj]? = some o
+  hop : o.parent = some op
+  hopo : s.objs[op]? = some opo
+  hcc : canContainImports opo.cls = true
+  hdd : ddel opo.contents o.name = some oc
+  hA : (A, obj) ∈ s.all
+  hpnp : (pnp, newParent) ∈ s.all
+  hnb : ¬Below s.objs obj newParent
+  roots : s'.roots = s.roots
+  newPath : path s' obj = some (pnp ++ [newName])
+  /-- everything below `obj` is renamed by replacing the old name of `obj` with the new one -/
+  moved : ∀ x kx, (kx, x) ∈ s.all → Below s.objs obj x →
+    ∃ rest, kx = A ++ rest ∧ path s' x = some (pnp ++ [newName] ++ rest)
+  branch :
+    -- the destination name was free
+    ((∀ v, (pnp ++ [newName], v) ∈ s.all → Below s.objs obj v) ∧
+      s'.objs = moveObjs s.objs obj op newParent newName oc o.name (pnp ++ [newName]) ∧
+      (∀ k v, (k, v) ∈ s.all → ¬Below s.objs obj v → (k, v) ∈ s'.all) ∧
+      (∀ k v, (k, v) ∈ s'.all → (((k, v) ∈ s.all ∧ ¬Below s.objs obj v) ∨ Below s.objs obj v))) ∨
+    -- it was taken by `prev`, which is superseded
+    (∃ prev nm', (pnp ++ [newName], prev) ∈ s.all ∧ ¬Below s.objs obj prev ∧ isSupersededName nm' = true ∧
+      s'.objs = (moveObjs s.objs obj op newParent newName oc o.name (pnp ++ [newName])).modify prev
+        (fun p => { p with name := nm' }))
+
+/-- `Documentable.reparent` preserves the invariant, and what it does. -/
+theorem reparent_spec {s s' : State} {obj newParent : Nat} {newName : Name} (hI : Inv s)
+    (h : reparent s obj newParent newName = .ok s') :
+    Inv s' ∧ ∃ o op opo oc A pnp, ReparentFacts s s' obj newParent newName o op opo oc A pnp := by
   unfold reparent at h
   cases hgo : getObj s obj with
   | none => simp only [hgo] at h; cases h
@@ -1631,19 +1710,19 @@ theorem reparent_inv {s s' : State} {obj newParent : Nat} {newName : Name} (hI :
   -- the shape of s4
   have h2o : s2.objs = s.objs.modify obj (fun x => { x with parent := some newParent, name := newName }) := by
     rw [← hs2, modifyObj, h1o]
-  have h4o : s4.objs = ((s.objs.modify obj (fun x => { x with parent := some newParent, name := newName })).modify op
-      (fun x => { x with contents := oc, aliases := dset x.aliases o.name newPath })).modify newParent
-      (fun x => { x with contents := dset x.contents newName obj }) := by
-    rw [← hs4, ← h2o]; rfl
+  have h4o : s4.objs = moveObjs s.objs obj op newParent newName oc o.name newPath := by
+    rw [← hs4, moveObjs, ← h2o]; rfl
   have h4a : s4.all = s1.all := by rw [← hs4, ← hs2]; rfl
   have h4r : s4.roots = s.roots := by rw [← hs4, ← hs2]; exact h1r
-  have h4len : s4.objs.length = s.objs.length := by rw [h4o]; simp only [List.length_modify]
+  have h4len : s4.objs.length = s.objs.length := by rw [h4o]; simp only [moveObjs, List.length_modify]
   have hF : ∀ i : Nat, ∃ F : Obj → Obj, s4.objs[i]? = (s.objs[i]?).map F ∧
       ∀ os, (F os).name = (if i = obj then newName else os.name) ∧
         (F os).parent = (if i = obj then some newParent else os.parent) ∧
         (F os).contents = (if i = newParent then dset (if i = op then oc else os.contents) newName obj
                             else (if i = op then oc else os.contents)) := by
-    intro i; rw [h4o]; exact modify3_get _ _ _ _ _ _ _ i
+    intro i; rw [h4o]
+    obtain ⟨F, h1, h2⟩ := modify3_get s.objs obj op newParent newName oc o.name newPath i
+    exact ⟨F, h1, fun os => ⟨(h2 os).1, (h2 os).2.1, (h2 os).2.2.1⟩⟩
   have hget4 : ∀ (i : Nat) (o4 : Obj), s4.objs[i]? = some o4 → ∃ os, s.objs[i]? = some os ∧
       o4.name = (if i = obj then newName else os.name) ∧
       o4.parent = (if i = obj then some newParent else os.parent) ∧
@@ -1833,6 +1912,23 @@ theorem reparent_inv {s s' : State} {obj newParent : Nat} {newName : Name} (hI :
           · rw [dset_get_other _ _ _ _ hname]; exact hstep1
         · exact hstep1
       · right; rw [hn]; exact hd
+  have roots4 : ∀ r : Nat, r ∈ s4.roots → ∃ o : Obj, s4.objs[r]? = some o ∧ o.parent = none := by
+    intro r hr
+    rw [h4r] at hr
+    obtain ⟨ro, hro, hp⟩ := hI.tree.rootsOk r hr
+    have hne : r ≠ obj := by
+      intro e; subst e
+      rw [ho] at hro; injection hro with e; subst e
+      rw [hop] at hp; cases hp
+    obtain ⟨o4, ho4, _, hp4, _⟩ := hget4' r ro hro
+    rw [if_neg hne] at hp4
+    exact ⟨o4, ho4, hp4.trans hp⟩
+  have hppR : (pp, newParent) ∈ s.all := by
+    obtain ⟨knp, hknp⟩ := hnpR4
+    have := (hP4.hasPath hknp).func hpp
+    subst this
+    rw [h4a, h1m] at hknp
+    exact hknp.1
   -- the two branches
   have hfinish : ∀ (s5 : State) (ran : Prop), PInv s5 →
       (∀ i, Reg s5 i ↔ (Reg s4 i ∨ (i = obj ∧ ran))) →
@@ -1842,9 +1938,13 @@ theorem reparent_inv {s s' : State} {obj newParent : Nat} {newName : Name} (hI :
       (ran → (newPath, obj) ∈ s5.all) → (¬ran → ∀ v, (newPath, v) ∉ s5.all) →
       (∀ o q, s5.objs[obj]? = some o → o.parent = some q → Reg s5 q) →
       addAll s5 (objectsBelow s obj) = .ok s' →
-      PInv s' ∧ (∀ i, i < s.objs.length → Reg s' i) ∧ s'.objs = s5.objs ∧ s'.roots = s5.roots := by
+      PInv s' ∧ (∀ i, i < s.objs.length → Reg s' i) ∧ s'.objs = s5.objs ∧ s'.roots = s5.roots ∧
+      (∀ k v, (k, v) ∈ s5.all → (k, v) ∈ s'.all) ∧
+      (∀ k v, (k, v) ∈ s'.all → ((k, v) ∈ s5.all ∨ (Reg s v ∧ Below s.objs obj v))) ∧
+      (∀ x kx, (kx, x) ∈ s.all → Below s.objs obj x →
+        ∃ rest, kx = A ++ rest ∧ path s' x = some (newPath ++ rest)) := by
     intro s5 ran hP5 hreg5 hpar5 hsame5 hobj5 hran hnran hobjpar5 hadd
-    refine reparent_finish (ran := ran) hI hP5 ?_ ?_ ?_ hobj5 hran hnran hobjpar5 hobjlt hadd
+    refine reparent_finish (ran := ran) hI hA hP5 ?_ ?_ ?_ hobj5 hran hnran hobjpar5 hadd
     · intro i
       rw [hreg5, hreg4]
     · intro i hi
@@ -1862,18 +1962,25 @@ theorem reparent_inv {s s' : State} {obj newParent : Nat} {newName : Name} (hI :
       handleDuplicate_spec hP4 hnr4 hnewP4 hobjpar4 hhd
     have hprevR4 : Reg s4 prev := ⟨newPath, hprev⟩
     have hprevobj : prev ≠ obj := fun e => hnr4 (e ▸ hprevR4)
-    obtain ⟨hP', hfull', h'o, h'r⟩ := hfinish s5 True hP5
+    obtain ⟨hP', hfull', h'o, h'r, hR3, hR4, hR2⟩ := hfinish s5 True hP5
       (fun i => by rw [hreg5]; simp)
       (fun i => by rw [h5o]; exact modify_agree_parent s4.objs prev (fun p => { p with name := nm' }) (fun _ => rfl) i)
       (fun i hi _ => by rw [h5o, getElem?_modify_ne _ (fun e : i = prev => hi (by rw [e]; exact hprevR4))])
       (hP5.keys _ _ hobj5) (fun _ => hobj5) (fun hn => absurd trivial hn)
       (fun o' q ho' hq => hP5.up obj o' q ⟨newPath, hobj5⟩ ho' hq) h
-    refine ⟨hP', ?_, ?_⟩
+    refine ⟨⟨hP', ?_, ?_⟩, o, op, opo, oc, A, pp, ?_⟩
+    rotate_left 2
+    · have hprev_s : (newPath, prev) ∈ s.all ∧ ¬Below s.objs obj prev := by
+        have := hprev; rw [h4a, h1m] at this; exact this
+      refine ⟨ho, hop, hopo, hcc, hdd, hA, hppR, hnpnb, h'r.trans (h5r.trans h4r), ?_, ?_, Or.inr ?_⟩
+      · rw [← hnewPeq, path_congr_objs h'o obj]; exact hP5.keys _ _ hobj5
+      · intro x kx hx hb; rw [← hnewPeq]; exact hR2 x kx hx hb
+      · exact ⟨prev, nm', hnewPeq ▸ hprev_s.1, hprev_s.2, hsup, by rw [h'o, h5o, h4o, hnewPeq]⟩
     · intro i hi
       rw [h'o, h5o, List.length_modify, h4len] at hi
       exact hfull' i hi
     · rw [h'o, h'r, h5o, h5r]
-      refine CInv_rename hsup cuniq4 coh4 ?_ ?_ ?_
+      refine CInv_rename hsup cuniq4 coh4 ?_ ?_ ?_ (h4r ▸ roots4)
       · intro q qo4 k hqo4 hent'
         obtain ⟨co4, b1, b2, b3⟩ := coh4 q qo4 k prev hqo4 hent'
         obtain ⟨pq, hpq, e1⟩ := (hP4.hasPath hprev).child_inv b1 b2
@@ -1910,27 +2017,46 @@ theorem reparent_inv {s s' : State} {obj newParent : Nat} {newName : Name} (hI :
         | none => rfl
         | some v => rw [hd] at hdup; simp at hdup
       exact dget_none_iff.1 this
-    obtain ⟨hP', hfull', h'o, h'r⟩ := hfinish s4 False hP4
+    obtain ⟨hP', hfull', h'o, h'r, hR3, hR4, hR2⟩ := hfinish s4 False hP4
       (fun i => by simp) (fun i => rfl) (fun i _ _ => rfl) hnewP4 (fun hf => hf.elim) (fun _ => hno)
       hobjpar4 h
-    refine ⟨hP', ?_, ?_⟩
+    refine ⟨⟨hP', ?_, ?_⟩, o, op, opo, oc, A, pp, ?_⟩
+    rotate_left 2
+    · refine ⟨ho, hop, hopo, hcc, hdd, hA, hppR, hnpnb, h'r.trans h4r, ?_, ?_, Or.inl ⟨?_, ?_, ?_, ?_⟩⟩
+      · rw [← hnewPeq, path_congr_objs h'o obj]; exact hnewP4
+      · intro x kx hx hb; rw [← hnewPeq]; exact hR2 x kx hx hb
+      · intro v hv
+        rw [← hnewPeq] at hv
+        exact Classical.byContradiction (fun hb => hno v (by rw [h4a, h1m]; exact ⟨hv, hb⟩))
+      · rw [h'o, h4o, hnewPeq]
+      · intro k v hk hb
+        exact hR3 k v (by rw [h4a, h1m]; exact ⟨hk, hb⟩)
+      · intro k v hk
+        rcases hR4 k v hk with a | a
+        · rw [h4a, h1m] at a; exact Or.inl a
+        · exact Or.inr a.2
     · intro i hi
       rw [h'o, h4len] at hi
       exact hfull' i hi
     · rw [h'o, h'r]
-      exact ⟨cuniq4, coh4, fun i o4 ho4 => listed4 i o4 ho4 (fun v hv => absurd hv (hno v))⟩
+      exact ⟨cuniq4, coh4, fun i o4 ho4 => listed4 i o4 ho4 (fun v hv => absurd hv (hno v)), roots4⟩
+
+/-- `Documentable.reparent` preserves the invariant. -/
+theorem reparent_inv {s s' : State} {obj newParent : Nat} {newName : Name} (hI : Inv s)
+    (h : reparent s obj newParent newName = .ok s') : Inv s' := (reparent_spec hI h).1
 
 /-! ## Layer 6: the property theorems of C02 -/
 
 /-- the empty system satisfies the invariant -/
 theorem inv_holds_init : Inv init := by
-  refine ⟨⟨uniq_nil, ?_, ?_⟩, ?_, ⟨?_, ?_, ?_⟩⟩
+  refine ⟨⟨uniq_nil, ?_, ?_⟩, ?_, ⟨?_, ?_, ?_, ?_⟩⟩
   · intro k i h; simp [init] at h
   · intro i o q _ ho; simp [init] at ho
   · intro i hi; simp [init] at hi
   · intro p po h; simp [init] at h
   · intro p po k c h; simp [init] at h
   · intro i o h; simp [init] at h
+  · intro r h; simp [init] at h
 
 /-- **C02, one step.**  Every operation of the registry API that does not raise — creating and
 registering an object (a duplicate definition included), or moving an object by `reparent`
